@@ -45,16 +45,29 @@ import (
 // known-finding classes (see /verif/known_findings.json)
 
 const (
-	vpC36KeyInfo      = "C36/informational-writeheader-latches"
-	vpC36KeyLate      = "C36/header-edit-after-commit-sent"
-	vpC36KeyMinor     = "C36/convertrequest-protominor-always-1"
-	vpC36KeyMultiCT   = "C36/repeated-content-type-collapsed"
-	vpC36KeyCookies   = "C36/convertrequest-cookie-lines-joined"
-	vpC36KeyNoHost10  = "C36/convertrequest-absolute-uri-host"
-	vpC36KeyEmptyHdr  = "C36/empty-header-value"
-	vpC36KeyCT304     = "C36/content-type-on-304"
-	vpC36MaxBodyPrint = 120
+	// response side
+	vpC36KeyInfo   = "C36/informational-writeheader-latches"
+	vpC36KeyLate   = "C36/header-edit-after-commit-sent"
+	vpC36KeyWHLate = "C36/writeheader-after-write-honored"
+	vpC36KeyCT304  = "C36/content-type-not-suppressed-on-304"
+	vpC36KeyMultiCT = "C36/repeated-content-type-collapsed"
+	// ConvertRequest side
+	vpC36KeyMinor   = "C36/convertrequest-protominor-always-1"
+	vpC36KeyConn10  = "C36/convertrequest-http10-synthetic-connection-close"
+	vpC36KeyHostLC  = "C36/convertrequest-host-lowercased"
+	vpC36KeySlash2  = "C36/convertrequest-double-slash-target"
+	vpC36KeySynCL   = "C36/convertrequest-synthetic-content-length"
+	vpC36KeySpecial = "C36/convertrequest-special-headers-collapsed"
+	vpC36KeyChunked = "C36/convertrequest-chunked-framing-rewritten"
 )
+
+// vpC36Mask lists the single observations that are not compared for a case because they are the
+// exact symptom of an open known finding (everything else of the case is still compared).
+type vpC36Mask struct {
+	minor  bool // ProtoMinor (HTTP/1.0 requests)
+	conn10 bool // the "Connection" request header (HTTP/1.0 requests)
+	chunk  bool // chunked requests: the "Content-Length" request header, and the ORDER of repeated values
+}
 
 // ---------------------------------------------------------------------------------------------
 // handler programs
@@ -370,7 +383,7 @@ func vpC36RoundTrip(ln *vpC36Listener, method string, raw []byte) *vpC36Resp {
 // ---------------------------------------------------------------------------------------------
 // generators
 
-var vpC36RespNames = []string{"X-A", "X-B", "x-lower", "X-Multi-Part", "Content-Type", "Set-Cookie", "Cache-Control"}
+var vpC36RespNames = []string{"X-A", "X-B", "x-lower", "X-Multi-Part", "x_under-score", "X.Dot", "Content-Type", "Set-Cookie", "Cache-Control"}
 
 var vpC36Codes = []int{200, 200, 201, 202, 203, 204, 206, 299, 301, 302, 304, 400, 401, 403, 404, 418, 429, 451, 499, 500, 502, 503, 511, 599}
 var vpC36InfoCodes = []int{100, 102, 103}
@@ -387,8 +400,21 @@ func vpC36GenHeaderValue(t *rapid.T, name string, allowEmpty bool) string {
 	case "cache-control":
 		return rapid.SampledFrom([]string{"no-cache", "no-store", "max-age=60", "private, max-age=0", "public"}).Draw(t, "cc")
 	}
-	if allowEmpty && rapid.IntRange(0, 11).Draw(t, "emptyv") == 0 {
-		return ""
+	if allowEmpty {
+		switch rapid.IntRange(0, 23).Draw(t, "oddv") {
+		case 0, 1:
+			return ""
+		case 2:
+			return " padded\t"
+		case 3:
+			return "caf\u00e9 \xff"
+		case 4:
+			return strings.Repeat("v", 300)
+		case 5:
+			if strings.ToLower(name) != "x-req" { // response values only: net/http documents that CR/LF become spaces
+				return rapid.SampledFrom([]string{"line\nbreak", "a\r\nX-Injected: 1", "tail\n"}).Draw(t, "nlval")
+			}
+		}
 	}
 	return rapid.StringMatching(`[a-zA-Z0-9!#$%&'*+.^_|~=;,:"/()<>?@\[\]{}-]([a-zA-Z0-9 \t!#$%&'*+.^_|~=;,:"/()<>?@\[\]{}-]{0,10}[a-zA-Z0-9!#$%&'*+.^_|~=;,:"/()<>?@\[\]{}-])?`).Draw(t, "hval")
 }
@@ -511,19 +537,28 @@ func vpC36Analyse(p *vpC36Prog, reqBodyLen int) vpC36ProgInfo {
 func vpC36GenProg(t *rapid.T, excl map[string]bool) *vpC36Prog {
 	noInfo := vpKnownOpen(vpC36KeyInfo)
 	noLate := vpKnownOpen(vpC36KeyLate)
-	noMultiCT := vpKnownOpen(vpC36KeyMultiCT)
-	noEmpty := vpKnownOpen(vpC36KeyEmptyHdr)
+	noWHLate := vpKnownOpen(vpC36KeyWHLate)
 	noCT304 := vpKnownOpen(vpC36KeyCT304)
+	noMultiCT := vpKnownOpen(vpC36KeyMultiCT)
+	model := http.Header{} // the handler's header map so far (only needed for the 304 steering)
 	n := rapid.IntRange(0, 9).Draw(t, "nops")
 	p := &vpC36Prog{}
-	committed := false
-	ctCount := 0
+	committed := false  // net/http has committed status+header
+	explicitWH := false // a WriteHeader call has been made (any code)
+	flushed := false
 	for i := 0; i < n; i++ {
-		kinds := []int{vpC36OpWriteHeader, vpC36OpAdd, vpC36OpAdd, vpC36OpSet, vpC36OpDel, vpC36OpWrite, vpC36OpWrite, vpC36OpFlush, vpC36OpEchoBody}
+		var kinds []int
 		if committed && noLate {
 			excl[vpC36KeyLate] = true
-			kinds = []int{vpC36OpWriteHeader, vpC36OpWrite, vpC36OpWrite, vpC36OpFlush, vpC36OpEchoBody}
+		} else {
+			kinds = append(kinds, vpC36OpAdd, vpC36OpAdd, vpC36OpSet, vpC36OpDel)
 		}
+		if committed && !explicitWH && !flushed && noWHLate {
+			excl[vpC36KeyWHLate] = true
+		} else {
+			kinds = append(kinds, vpC36OpWriteHeader)
+		}
+		kinds = append(kinds, vpC36OpWrite, vpC36OpWrite, vpC36OpFlush, vpC36OpEchoBody)
 		k := rapid.SampledFrom(kinds).Draw(t, "kind")
 		op := vpC36Op{Kind: k}
 		switch k {
@@ -535,42 +570,42 @@ func vpC36GenProg(t *rapid.T, excl map[string]bool) *vpC36Prog {
 				codes = vpC36InfoCodes
 			}
 			op.Code = rapid.SampledFrom(codes).Draw(t, "code")
+			if op.Code == 304 && !committed && noCT304 && len(model["Content-Type"]) > 0 {
+				// 304 with a handler-set Content-Type is the class of an open finding
+				excl[vpC36KeyCT304] = true
+				op.Code = 303
+			}
+			explicitWH = true
 			if op.Code >= 200 {
-				if op.Code == 304 && ctCount > 0 && !committed && noCT304 {
-					excl[vpC36KeyCT304] = true
-					op.Code = 303
-				}
 				committed = true
 			}
 		case vpC36OpAdd, vpC36OpSet, vpC36OpDel:
-			names := vpC36RespNames
-			op.Name = rapid.SampledFrom(names).Draw(t, "hname")
-			if !committed && noMultiCT && k == vpC36OpAdd && ctCount >= 1 && http.CanonicalHeaderKey(op.Name) == "Content-Type" {
+			op.Name = rapid.SampledFrom(vpC36RespNames).Draw(t, "hname")
+			if k == vpC36OpAdd && noMultiCT && len(model["Content-Type"]) > 0 && http.CanonicalHeaderKey(op.Name) == "Content-Type" {
+				// a second Content-Type value is the class of an open finding
 				excl[vpC36KeyMultiCT] = true
-				op.Kind = vpC36OpSet
 				k = vpC36OpSet
+				op.Kind = k
 			}
 			if k != vpC36OpDel {
-				op.Val = vpC36GenHeaderValue(t, op.Name, !noEmpty)
-				if noEmpty {
-					excl[vpC36KeyEmptyHdr] = true
-				}
+				op.Val = vpC36GenHeaderValue(t, op.Name, true)
 			}
-			if !committed && http.CanonicalHeaderKey(op.Name) == "Content-Type" {
-				switch k {
-				case vpC36OpAdd:
-					ctCount++
-				case vpC36OpSet:
-					ctCount = 1
-				default:
-					ctCount = 0
-				}
+			switch k {
+			case vpC36OpAdd:
+				model.Add(op.Name, op.Val)
+			case vpC36OpSet:
+				model.Set(op.Name, op.Val)
+			default:
+				model.Del(op.Name)
 			}
 		case vpC36OpWrite:
 			op.Data = vpC36GenData(t)
 			committed = true
-		case vpC36OpFlush, vpC36OpEchoBody:
+		case vpC36OpEchoBody:
 			committed = true
+		case vpC36OpFlush:
+			committed = true
+			flushed = true
 		}
 		p.Ops = append(p.Ops, op)
 	}
@@ -590,9 +625,9 @@ type vpC36Req struct {
 	flags   map[string]bool
 }
 
-var vpC36ReqNames = []string{"X-A", "x-b", "X-long-NAME-here", "Accept", "User-Agent", "Content-Type", "Cache-Control", "Authorization", "Accept-Encoding", "Referer", "X-Forwarded-For", "Cookie"}
+var vpC36ReqNames = []string{"X-A", "x-b", "X-long-NAME-here", "x_under-score", "X.Dot", "Accept", "User-Agent", "Content-Type", "Cache-Control", "Authorization", "Accept-Encoding", "Referer", "X-Forwarded-For", "Cookie"}
 
-func vpC36GenTarget(t *rapid.T, rich bool) string {
+func vpC36GenTarget(t *rapid.T, rich bool, excl map[string]bool) string {
 	seg := rapid.StringMatching(`[a-zA-Z0-9._~!$&'()*+,;=:@-]{0,6}`)
 	if !rich {
 		seg = rapid.StringMatching(`[a-z0-9]{0,5}`)
@@ -620,6 +655,11 @@ func vpC36GenTarget(t *rapid.T, rich bool) string {
 				s += "%41%7e"
 			}
 		}
+		if i == 0 && s == "" && nseg > 0 && vpKnownOpen(vpC36KeySlash2) {
+			// an origin-form target starting with "//" is the class of an open finding
+			excl[vpC36KeySlash2] = true
+			s = "r"
+		}
 		sb.WriteString(s)
 	}
 	if rapid.IntRange(0, 2).Draw(t, "hasq") == 0 {
@@ -639,21 +679,23 @@ func vpC36GenReq(t *rapid.T, rich bool, excl map[string]bool) *vpC36Req {
 	} else {
 		r.Method = rapid.SampledFrom([]string{"GET", "GET", "HEAD", "POST"}).Draw(t, "method")
 	}
-	r.Target = vpC36GenTarget(t, rich)
+	r.Target = vpC36GenTarget(t, rich, excl)
 	r.Proto = "HTTP/1.1"
 	if rapid.IntRange(0, 3).Draw(t, "http10") == 0 {
 		r.Proto = "HTTP/1.0"
 		r.flags["http10"] = true
 	}
-	host := rapid.SampledFrom([]string{"example.com", "a.b:8080", "localhost", "EXAMPLE.org", "[::1]:81", "10.0.0.1"}).Draw(t, "host")
-	if rich && rapid.IntRange(0, 5).Draw(t, "absform") == 0 {
-		if vpKnownOpen(vpC36KeyNoHost10) {
-			excl[vpC36KeyNoHost10] = true
-		} else {
-			r.Target = "http://" + rapid.SampledFrom([]string{"other.example", "example.com", "h:99"}).Draw(t, "abshost") + r.Target
-			r.flags["absform"] = true
-		}
+	hosts := []string{"example.com", "a.b:8080", "localhost", "[::1]:81", "10.0.0.1", "EXAMPLE.org", "Mixed.Case:80"}
+	if vpKnownOpen(vpC36KeyHostLC) {
+		excl[vpC36KeyHostLC] = true
+		hosts = hosts[:5]
 	}
+	host := rapid.SampledFrom(hosts).Draw(t, "host")
+	if rich && rapid.IntRange(0, 5).Draw(t, "absform") == 0 {
+		r.Target = "http://" + rapid.SampledFrom([]string{"other.example", "example.com", "h:99"}).Draw(t, "abshost") + r.Target
+		r.flags["absform"] = true
+	}
+	noSpecial := vpKnownOpen(vpC36KeySpecial)
 	// header lines
 	var lines [][2]string
 	nh := rapid.IntRange(0, 6).Draw(t, "nhdr")
@@ -669,22 +711,26 @@ func vpC36GenReq(t *rapid.T, rich bool, excl map[string]bool) *vpC36Req {
 		}
 		canon := http.CanonicalHeaderKey(name)
 		var val string
+		if noSpecial && seen[canon] >= 1 && (canon == "Cookie" || canon == "Content-Type" || canon == "User-Agent") {
+			// a second line of a header fasthttp stores in a dedicated single slot
+			excl[vpC36KeySpecial] = true
+			name, canon = "X-A", "X-A"
+		}
 		switch canon {
 		case "Cookie":
-			if cookieLines >= 1 && vpKnownOpen(vpC36KeyCookies) {
-				excl[vpC36KeyCookies] = true
-				name, canon = "X-A", "X-A"
-				val = "c"
-			} else {
-				cookieLines++
-				val = rapid.SampledFrom([]string{"a=1", "a=1; b=2", "sid=xyz", "b=2;c=3", "k=v; k=w"}).Draw(t, "cookie")
+			cookieLines++
+			cks := []string{"a=1", "a=1; b=2", "sid=xyz", "b=2;c=3", "k=v; k=w", "a=1;  b=2"}
+			if noSpecial {
+				excl[vpC36KeySpecial] = true
+				cks = cks[:3]
 			}
+			val = rapid.SampledFrom(cks).Draw(t, "cookie")
 		case "Content-Type":
-			val = rapid.SampledFrom([]string{"text/plain", "application/json", "application/x-www-form-urlencoded", "multipart/form-data; boundary=xx"}).Draw(t, "rct")
+			val = rapid.SampledFrom([]string{"text/plain", "application/json", "application/x-www-form-urlencoded", "application/octet-stream"}).Draw(t, "rct")
 		case "User-Agent":
 			val = rapid.SampledFrom([]string{"curl/8.0", "Mozilla/5.0 (X11; Linux)", "ua"}).Draw(t, "ua")
 		default:
-			val = vpC36GenHeaderValue(t, "x-req", !vpKnownOpen(vpC36KeyEmptyHdr))
+			val = vpC36GenHeaderValue(t, "x-req", true)
 		}
 		seen[canon]++
 		if seen[canon] > 1 {
@@ -721,6 +767,10 @@ func vpC36GenReq(t *rapid.T, rich bool, excl map[string]bool) *vpC36Req {
 			lines = append(lines, [2]string{"Content-Length", strconv.Itoa(len(r.Body))})
 		}
 	} else if r.Method == "POST" || r.Method == "PUT" || r.Method == "PATCH" {
+		lines = append(lines, [2]string{"Content-Length", "0"})
+	} else if r.Method != "GET" && r.Method != "HEAD" && vpKnownOpen(vpC36KeySynCL) {
+		// body-less DELETE/OPTIONS without a Content-Length line is the class of an open finding
+		excl[vpC36KeySynCL] = true
 		lines = append(lines, [2]string{"Content-Length", "0"})
 	}
 	if rapid.IntRange(0, 3).Draw(t, "connclose") == 0 {
@@ -772,7 +822,7 @@ func vpC36GenReq(t *rapid.T, rich bool, excl map[string]bool) *vpC36Req {
 // ---------------------------------------------------------------------------------------------
 // comparison
 
-func vpC36HeaderDiff(what string, want, got map[string][]string, skip map[string]bool) string {
+func vpC36HeaderDiff(what string, want, got map[string][]string, skip map[string]bool, unordered ...bool) string {
 	names := map[string]bool{}
 	for k := range want {
 		names[k] = true
@@ -794,6 +844,12 @@ func vpC36HeaderDiff(what string, want, got map[string][]string, skip map[string
 		if len(w) == 0 && len(g) == 0 {
 			continue
 		}
+		if len(unordered) > 0 && unordered[0] {
+			w = append([]string(nil), w...)
+			g = append([]string(nil), g...)
+			sort.Strings(w)
+			sort.Strings(g)
+		}
 		if !reflect.DeepEqual(w, g) {
 			out = append(out, fmt.Sprintf("%s %q: net/http=%q adaptor=%q", what, k, w, g))
 		}
@@ -801,7 +857,7 @@ func vpC36HeaderDiff(what string, want, got map[string][]string, skip map[string
 	return strings.Join(out, "\n")
 }
 
-func vpC36ReqDiff(ref, got *vpC36Snap, skipMinor bool) string {
+func vpC36ReqDiff(ref, got *vpC36Snap, mask vpC36Mask) string {
 	var out []string
 	add := func(f string, a, b any) {
 		if !reflect.DeepEqual(a, b) {
@@ -814,7 +870,7 @@ func vpC36ReqDiff(ref, got *vpC36Snap, skipMinor bool) string {
 	add("RequestURI", ref.RequestURI, got.RequestURI)
 	add("Proto", ref.Proto, got.Proto)
 	add("ProtoMajor", ref.Major, got.Major)
-	if !skipMinor {
+	if !mask.minor {
 		add("ProtoMinor", ref.Minor, got.Minor)
 	}
 	add("Host", ref.Host, got.Host)
@@ -822,7 +878,7 @@ func vpC36ReqDiff(ref, got *vpC36Snap, skipMinor bool) string {
 	add("BodyErr", ref.BodyErr, got.BodyErr)
 	// net/http moves the Host line into r.Host and never keeps it in the map; the adaptor's copy of
 	// it is compared through r.Host only.
-	if d := vpC36HeaderDiff("request header", ref.Header, got.Header, map[string]bool{"Host": true}); d != "" {
+	if d := vpC36HeaderDiff("request header", ref.Header, got.Header, map[string]bool{"Host": true, "Connection": mask.conn10, "Content-Length": mask.chunk}, mask.chunk); d != "" {
 		out = append(out, d)
 	}
 	return strings.Join(out, "\n")
@@ -843,7 +899,7 @@ type vpC36Outcome struct {
 	harness  string // non-empty: the reference side itself failed (generator problem)
 }
 
-func vpC36RunCase(e *vpC36Env, prog *vpC36Prog, req *vpC36Req, skipMinor bool) *vpC36Outcome {
+func vpC36RunCase(e *vpC36Env, prog *vpC36Prog, req *vpC36Req, mask vpC36Mask) *vpC36Outcome {
 	o := &vpC36Outcome{}
 	o.info = vpC36Analyse(prog, len(req.Body))
 	// reference parse of the request bytes
@@ -899,12 +955,12 @@ func vpC36RunCase(e *vpC36Env, prog *vpC36Prog, req *vpC36Req, skipMinor bool) *
 	}
 	// --- request conversion
 	if o.fastSnap != nil {
-		if d := vpC36ReqDiff(o.ref, o.fastSnap, skipMinor); d != "" {
+		if d := vpC36ReqDiff(o.ref, o.fastSnap, mask); d != "" {
 			o.reqDiff = d
 			diffs = append(diffs, "ConvertRequest vs http.ReadRequest:\n"+d)
 		}
 		// sanity of the reference: net/http's server must hand its handler the same parse
-		if d := vpC36ReqDiff(o.ref, o.stdSnap, false); d != "" {
+		if d := vpC36ReqDiff(o.ref, o.stdSnap, vpC36Mask{}); d != "" {
 			o.harness = "http.ReadRequest and net/http's server disagree (reference not usable):\n" + d
 			return o
 		}
@@ -1011,11 +1067,17 @@ func vpC36RawReq(method, target, proto string, hdr ...string) *vpC36Req {
 	return &vpC36Req{Method: method, Target: target, Proto: proto, Raw: b.Bytes(), flags: map[string]bool{}}
 }
 
+func vpC36RawBody(r *vpC36Req, wire, decoded string) *vpC36Req {
+	r.Raw = append(r.Raw, wire...)
+	r.Body = []byte(decoded)
+	return r
+}
+
 func vpC36Probes(e *vpC36Env) {
 	vpC36ProbeOnce.Do(func() {
 		get := vpC36RawReq("GET", "/p", "HTTP/1.1", "Host: example.com")
 		run := func(key string, prog *vpC36Prog, req *vpC36Req, pick func(o *vpC36Outcome) string) {
-			o := vpC36RunCase(e, prog, req, false)
+			o := vpC36RunCase(e, prog, req, vpC36Mask{})
 			if o.harness != "" {
 				vpProbe(key, true, "probe inconclusive (treated as present): "+o.harness)
 				return
@@ -1024,20 +1086,56 @@ func vpC36Probes(e *vpC36Env) {
 			vpProbe(key, d != "", fmt.Sprintf("program [%s] request %q: %s", prog, req.Raw, strings.ReplaceAll(d, "\n", " | ")))
 		}
 		resp := func(o *vpC36Outcome) string { return o.respDiff }
-		reqd := func(o *vpC36Outcome) string { return o.reqDiff }
-		run(vpC36KeyInfo, &vpC36Prog{Ops: []vpC36Op{{Kind: vpC36OpWriteHeader, Code: 103}, {Kind: vpC36OpWriteHeader, Code: 201}, {Kind: vpC36OpWrite, Data: []byte("ok")}}}, get, resp)
-		run(vpC36KeyLate, &vpC36Prog{Ops: []vpC36Op{{Kind: vpC36OpWrite, Data: []byte("ok")}, {Kind: vpC36OpSet, Name: "X-A", Val: "late"}}}, get, resp)
-		run(vpC36KeyMultiCT, &vpC36Prog{Ops: []vpC36Op{{Kind: vpC36OpAdd, Name: "Content-Type", Val: "text/plain"}, {Kind: vpC36OpAdd, Name: "Content-Type", Val: "image/png"}, {Kind: vpC36OpWrite, Data: []byte("ok")}}}, get, resp)
-		run(vpC36KeyEmptyHdr, &vpC36Prog{Ops: []vpC36Op{{Kind: vpC36OpSet, Name: "X-A", Val: ""}, {Kind: vpC36OpWrite, Data: []byte("ok")}}}, get, resp)
+		reqField := func(prefix string) func(o *vpC36Outcome) string {
+			return func(o *vpC36Outcome) string {
+				var out []string
+				for _, l := range strings.Split(o.reqDiff, "\n") {
+					if strings.HasPrefix(l, prefix) {
+						out = append(out, l)
+					}
+				}
+				return strings.Join(out, " | ")
+			}
+		}
+		ok := vpC36Op{Kind: vpC36OpWrite, Data: []byte("ok")}
+		run(vpC36KeyInfo, &vpC36Prog{Ops: []vpC36Op{{Kind: vpC36OpWriteHeader, Code: 103}, {Kind: vpC36OpWriteHeader, Code: 201}, ok}}, get, resp)
+		run(vpC36KeyLate, &vpC36Prog{Ops: []vpC36Op{ok, {Kind: vpC36OpSet, Name: "X-A", Val: "late"}}}, get, resp)
+		run(vpC36KeyWHLate, &vpC36Prog{Ops: []vpC36Op{ok, {Kind: vpC36OpWriteHeader, Code: 404}}}, get, resp)
 		run(vpC36KeyCT304, &vpC36Prog{Ops: []vpC36Op{{Kind: vpC36OpSet, Name: "Content-Type", Val: "text/plain"}, {Kind: vpC36OpWriteHeader, Code: 304}}}, get, resp)
-		run(vpC36KeyMinor, &vpC36Prog{}, vpC36RawReq("GET", "/p", "HTTP/1.0", "Host: example.com"), reqd)
-		run(vpC36KeyCookies, &vpC36Prog{}, vpC36RawReq("GET", "/p", "HTTP/1.1", "Host: example.com", "Cookie: a=1", "Cookie: b=2"), reqd)
-		run(vpC36KeyNoHost10, &vpC36Prog{}, vpC36RawReq("GET", "http://other.example/p", "HTTP/1.1", "Host: example.com"), reqd)
+		run(vpC36KeyChunked, &vpC36Prog{}, vpC36RawBody(vpC36RawReq("POST", "/p", "HTTP/1.1", "Host: example.com", "X-A: 1", "Transfer-Encoding: chunked", "X-A: 2"), "3\r\nabc\r\n0\r\n\r\n", "abc"), reqField(`request header`))
+		run(vpC36KeyMultiCT, &vpC36Prog{Ops: []vpC36Op{{Kind: vpC36OpAdd, Name: "Content-Type", Val: "text/plain"}, {Kind: vpC36OpAdd, Name: "Content-Type", Val: "image/png"}, ok}}, get, resp)
+		run(vpC36KeyMinor, &vpC36Prog{}, vpC36RawReq("GET", "/p", "HTTP/1.0", "Host: example.com"), reqField("ProtoMinor"))
+		run(vpC36KeyConn10, &vpC36Prog{}, vpC36RawReq("GET", "/p", "HTTP/1.0", "Host: example.com"), reqField(`request header "Connection"`))
+		run(vpC36KeyHostLC, &vpC36Prog{}, vpC36RawReq("GET", "/p", "HTTP/1.1", "Host: EXAMPLE.org"), reqField("Host:"))
+		run(vpC36KeySlash2, &vpC36Prog{}, vpC36RawReq("GET", "//gv/x1", "HTTP/1.0"), func(o *vpC36Outcome) string { return o.diff })
+		run(vpC36KeySynCL, &vpC36Prog{}, vpC36RawReq("DELETE", "/p", "HTTP/1.1", "Host: example.com"), reqField(`request header "Content-Length"`))
+		run(vpC36KeySpecial, &vpC36Prog{}, vpC36RawReq("GET", "/p", "HTTP/1.1", "Host: example.com", "User-Agent: a", "User-Agent: b", "Cookie: a=1", "Cookie: b=2;c=3"), reqField(`request header`))
 	})
 }
 
 // ---------------------------------------------------------------------------------------------
 // tests
+
+// vpC36MaskFor: HTTP/1.0 requests stay in the domain while the two HTTP/1.0 findings are open; only
+// the two affected observations are masked.
+func vpC36MaskFor(req *vpC36Req, excl map[string]bool) vpC36Mask {
+	var m vpC36Mask
+	if req.flags["http10"] {
+		if vpKnownOpen(vpC36KeyMinor) {
+			m.minor = true
+			excl[vpC36KeyMinor] = true
+		}
+		if vpKnownOpen(vpC36KeyConn10) {
+			m.conn10 = true
+			excl[vpC36KeyConn10] = true
+		}
+	}
+	if req.Chunked && vpKnownOpen(vpC36KeyChunked) {
+		m.chunk = true
+		excl[vpC36KeyChunked] = true
+	}
+	return m
+}
 
 func vpC36Describe(prog *vpC36Prog, req *vpC36Req, o *vpC36Outcome) string {
 	return fmt.Sprintf("request bytes: %q\nprogram: %s\n%s", req.Raw, prog, o.diff)
@@ -1052,12 +1150,8 @@ func TestVP_C36_Handler(t *testing.T) {
 		excl := map[string]bool{}
 		req := vpC36GenReq(t, false, excl)
 		prog := vpC36GenProg(t, excl)
-		skipMinor := false
-		if req.flags["http10"] && vpKnownOpen(vpC36KeyMinor) {
-			skipMinor = true
-			excl[vpC36KeyMinor] = true
-		}
-		o := vpC36RunCase(e, prog, req, skipMinor)
+		mask := vpC36MaskFor(req, excl)
+		o := vpC36RunCase(e, prog, req, mask)
 		for k := range excl {
 			vpExclude(k)
 		}
@@ -1092,12 +1186,8 @@ func TestVP_C36_Request(t *testing.T) {
 		case 2:
 			prog.Ops = []vpC36Op{{Kind: vpC36OpFlush}, {Kind: vpC36OpEchoBody}}
 		}
-		skipMinor := false
-		if req.flags["http10"] && vpKnownOpen(vpC36KeyMinor) {
-			skipMinor = true
-			excl[vpC36KeyMinor] = true
-		}
-		o := vpC36RunCase(e, prog, req, skipMinor)
+		mask := vpC36MaskFor(req, excl)
+		o := vpC36RunCase(e, prog, req, mask)
 		for k := range excl {
 			vpExclude(k)
 		}
